@@ -40,6 +40,9 @@ def boom(t):
 def trigger_library():
     return {
         "header": ("## H2 first\n", {}, ("myst", "header")),
+        "header_text": ("## H2 first\n\ntext below\n", {}, ("myst", "header")),
+        "header_jump": ("# A\n\n### B\n\ntext\n", {}, ("myst", "header")),
+        "header_jump2": ("# A\n\n## B\n\n#### C\n\n## D\n", {}, ("myst", "header")),
         "topmatter": ("---\nmyst: 1\n---\n\ntext\n", {}, ("myst", "topmatter")),
         "topmatter_field": ("---\nmyst:\n  nosuch: 1\n---\n\ntext\n", {}, ("myst", "topmatter")),
         "duplicate_def": ("[a]: http://b.c\n[a]: http://c.d\n\n[a]\n", {}, ("myst", "duplicate_def")),
@@ -67,6 +70,9 @@ def trigger_library():
 
 def entry_str(e):
     return e[0] + ("." + e[1] if e[1] else "")
+
+
+XFORMS = {"doctitle_xform": True, "sectsubtitle_xform": True}
 
 
 def render_items(text, overrides, suppress):
@@ -106,15 +112,83 @@ def _anc(n):
         p = p.parent
 
 
+def check_option_strings(ctx):
+    """every spelling of a comma-separated list that docutils accepts must suppress the same warnings"""
+    import io
+    from docutils.frontend import OptionParser
+    from docutils.utils import new_document
+    from myst_parser.parsers.docutils_ import Parser
+    text = "## H2 first\n\n~~s~~ {nosuchrole}`x`\n"           # myst.header, myst.strikethrough, myst.role_unknown
+    n = 0
+    for lst in (["myst.header"], ["myst.header", "myst.strikethrough"], ["myst.strikethrough", "myst.header", "myst.role_unknown"]):
+        for spelling in (",".join(lst), ", ".join(lst), " , ".join(lst), ",\n".join(lst), "\n" + ",\n".join(lst) + "\n", ",".join(lst) + ","):
+            n += 1
+            case = {"leg": "R-optstring", "option": "--myst-suppress-warnings", "value": spelling, "markdown": text}
+            try:
+                settings = OptionParser(components=(Parser,)).parse_args(["--myst-suppress-warnings=" + spelling, "--myst-enable-extensions=strikethrough"])
+                settings.warning_stream = io.StringIO()
+                settings.report_level = 2
+                settings.halt_level = 5
+                doc = new_document("<string>", settings)
+                Parser().parse(text, doc)
+            except (Exception, SystemExit) as e:  # noqa: BLE001
+                ctx.violation(f"--myst-suppress-warnings={spelling!r}: {type(e).__name__}: {e}", case)
+                continue
+            ctx.count(("optstring", spelling))
+            ctx.traces_validated += 1
+            log = settings.warning_stream.getvalue()
+            for tag in ("myst.header", "myst.strikethrough", "myst.role_unknown"):
+                shown = f"[{tag}]" in log
+                if shown == (tag in lst):
+                    ctx.violation(f"--myst-suppress-warnings={spelling!r}: [{tag}] is {'shown' if shown else 'suppressed'}, "
+                                  f"the list {'contains' if tag in lst else 'does not contain'} it", case)
+    return n
+
+
 def _pair(job):
     """worker: render (text, overrides) with [] and with `suppress`"""
     tid, names, text, ov, suppress = job
     try:
         a, ua = render_items(text, ov, [])
         b, ub = render_items(text, ov, suppress)
+        res = {"id": tid, "names": names, "text": text, "suppress": suppress, "outA": a, "outB": b, "untagged": ua + ub}
+        if ov.get("doctitle_xform"):
+            # the same pair without docutils' title promotion, and the shape of the unsuppressed document (for the
+            # signature of the finding C14-doctitle-promotion)
+            plain = {k: v for k, v in ov.items() if k not in XFORMS}
+            res["xforms"] = True
+            res["plainA"], _ = render_items(text, plain, [])
+            res["plainB"], _ = render_items(text, plain, suppress)
+            res["top"] = top_shape(text, plain)
+        return res
     except Exception as e:  # noqa: BLE001
         return {"id": tid, "error": f"{type(e).__name__}: {e}", "names": names, "text": text, "suppress": suppress}
-    return {"id": tid, "names": names, "text": text, "suppress": suppress, "outA": a, "outB": b, "untagged": ua + ub}
+
+
+def top_shape(text, ov):
+    """kinds of the document's children without suppression and without title promotion"""
+    from docutils import nodes
+    from ..frontends import docutils_doctree
+    doc, _ = docutils_doctree(text, {**ov, "myst_suppress_warnings": []})
+    return ["warn" if isinstance(c, nodes.system_message) else c.tagname for c in doc.children]
+
+
+def _supp(tag, suppress):
+    return any(e[0] == tag[0] and e[1] in ("", "*", tag[1]) for e in suppress)
+
+
+def _only_promotion(o):
+    """signature of C14-doctitle-promotion: exactly one top-level section, everything after it are warning nodes, at least
+    one of which the list suppresses; AND without the doctitle/subtitle transforms the pair satisfies the relation"""
+    top = [k for k in o["top"] if k not in ("comment", "target", "substitution_definition", "pending", "meta", "docinfo")]
+    lead = 0
+    while lead < len(top) and top[lead] == "warn":
+        lead += 1
+    shape = top[lead:lead + 1] == ["section"] and len(top) > lead + 1 and all(k == "warn" for k in top[lead + 1:])
+    if not shape:
+        return False
+    filt = [it for it in o["plainA"] if not (it[0] in ("warn", "log") and _supp(it[1], o["suppress"]))]
+    return filt == o["plainB"] and filt != o["plainA"]
 
 
 def run(ctx):
@@ -137,7 +211,7 @@ def run(ctx):
             "TagsV": "{" + ", ".join(tlc.tla_expr(list(t)) for t in TAGS) + "}",
             "EntriesV": "{" + ", ".join(tlc.tla_expr(list(e)) for e in ENTRIES) + "}"}
     consts = {"Catalogue": set(cat.values()), "Sites": "<-SitesV", "KnownUntyped": "<-KnownV", "Tags": "<-TagsV", "Entries": "<-EntriesV",
-              "MaxList": 3, "MaxActs": 0, "DevBreakOnOtherType": False, "DevFallbackText": False, "DevTransitionCounts": False}
+              "MaxList": 3, "MaxActs": 0, "DevBreakOnOtherType": False, "DevFallbackText": False, "DevTransitionCounts": False, "DevLoneSection": False}
     # ---- T 1+2 ------------------------------------------------------------------------------
     r = tlc.run("Warnings", tlc.cfg(ctx, "w_mc.cfg", consts, invariants=["SitesTyped", "NoUntyped", "LoopCorrect", "OperatorForm", "Emit"],
                                     properties=["Terminates"]), wd=ctx.wd, timeout=3000, defs=defs)
@@ -176,7 +250,8 @@ def run(ctx):
         if rc.coverage.get(act, (0, 0))[0] == 0:
             raise tlc.MachineryFailure(f"Warnings: action {act} never taken (vacuous)")
     ctx.add_tlc("Warnings_cov", rc)
-    for dev, inv in (("DevBreakOnOtherType", "LoopCorrect"), ("DevFallbackText", "NoSideEffects"), ("DevTransitionCounts", "NoSideEffects")):
+    for dev, inv in (("DevBreakOnOtherType", "LoopCorrect"), ("DevFallbackText", "NoSideEffects"), ("DevTransitionCounts", "NoSideEffects"),
+                     ("DevLoneSection", "NoSideEffects")):
         rd = tlc.run("Warnings", tlc.cfg(ctx, f"w_{dev}.cfg", {**c3, dev: True, "MaxActs": 1}, invariants=[inv]), wd=ctx.wd, defs=d3)
         tlc.expect_violation(rd, inv, f"Warnings {dev}")
         ctx.add_tlc(f"Warnings_{dev}", rd, "expected counterexample found")
@@ -223,6 +298,10 @@ def run(ctx):
     ctx.leg("R-create_warning", behaviours=len(recs) * 2)
     ctx.sample({"tag": recs[len(recs) // 2]["tag"], "suppress_list": recs[len(recs) // 2]["lst"], "suppressed": recs[len(recs) // 2]["suppressed"]})
 
+    # ---- R: the suppress list written as a docutils option string (command line / docutils.conf) ------
+    nopt = check_option_strings(ctx)
+    ctx.leg("R-optstring", cases=nopt)
+
     # ---- R 2 + V: trigger library --------------------------------------------------------------
     lib = trigger_library()
     jobs = []
@@ -231,6 +310,10 @@ def run(ctx):
         for sup in ([tag], [(tag[0], "")], [(tag[0], "*")], [("epub", "x"), tag], [("myst", "nosuchtag")], [(tag[0], tag[1] + ".x")]):
             jobs.append((tid, [name], text, ov, [list(e) for e in sup]))
             tid += 1
+        # docutils' own defaults: a lone top-level section is promoted to the document title (a warning node in the
+        # wrong place changes whether the section is "lone")
+        jobs.append((tid, [name], text, {**ov, **XFORMS}, [list(tag)]))
+        tid += 1
     nlib = len(jobs)
     alltags = sorted({t for _, _, t in lib.values()})
     names = [n for n in lib if n not in ("topmatter", "topmatter_field", "deprecated", "heading_slug", "inv_retrieval")]
@@ -251,6 +334,8 @@ def run(ctx):
         for _ in range(rnd.randint(1, 3)):
             t = rnd.choice(alltags)
             sup.append(rnd.choice([list(t), [t[0], ""], [t[0], "*"], ["epub", "x"], [t[0], t[1] + "x"]]))
+        if rnd.random() < 0.4:
+            ov.update(XFORMS)
         jobs.append((tid, pick, text, ov, sup))
         tid += 1
     outs = pmap(_pair, jobs, chunksize=8)
@@ -295,6 +380,8 @@ def run(ctx):
                 fid = "C14-xref-fallback"
             if "footnote_dup_only" in o["names"] and len(o["names"]) == 1 and any(e[0] == "ref" and e[1] in ("", "*", "footnote") for e in sup):
                 fid = "C14-footnote-transition"
+            if fid is None and o.get("xforms") and _only_promotion(o):
+                fid = "C14-doctitle-promotion"
             n = v["firstdiff"]
             fa = [it for it in o["outA"]]
             ctx.violation(f"suppress_warnings={case['suppress_warnings']} changes more than the suppressed warnings "
